@@ -20,7 +20,10 @@ static Alphabet token_alphabet() {
     Alphabet a;
     const char *toks[] = {"{", "}", "[", "]", ",", ":", "\"a\"", "\"", "\"\\n\"", "\"\\u00e9\"", "\"\\uD83D\\uDE00\"",
                           "\"\\uD83D", "\\", "\\u", "\\uD8", "true", "false", "null", "0", "-1", "1.5", "1e5", "1e", "01",
-                          "0x1F", " "};
+                          "0x1F", " ",
+                          // numerals that sit on the converter's windows (19/20 digits, 2^64, long fraction, extreme exponents)
+                          "1234567890123456789", "12345678901234567890", "18446744073709551615", "0.12345678901234567890123",
+                          "1e308", "1E-320"};
     for (auto t : toks) {
         a.tokens.push_back(T(t));
     }
@@ -75,7 +78,7 @@ int main(int argc, char **argv) {
         const int nt = atoi(a.get("tokens", "3").c_str());  // token strings up to this many tokens
         const int dmax = atoi(a.get("depth", "1000").c_str());
         plan.rule = "all strings of <=" + std::to_string(nu) + " code units over a 31-unit JSON alphabet, all strings of <=" +
-                    std::to_string(nt) + " tokens over 27 JSON tokens plus every code-unit truncation, nesting families to depth " +
+                    std::to_string(nt) + " tokens over 33 JSON tokens plus every code-unit truncation, nesting families to depth " +
                     std::to_string(dmax) + "; each parsed as char, char16_t, char32_t, wchar_t from an exact-size buffer without "
                     "terminator; distinct = distinct parse outcomes (canonical dump over the 4 widths)";
         plan.bounds = "units<=" + std::to_string(nu) + " tokens<=" + std::to_string(nt) + " depth<=" + std::to_string(dmax);
